@@ -365,6 +365,9 @@ def main(argv):
         i = args.index("--tier"); tier = args[i + 1]; del args[i:i + 2]
     if args and args[0] == "--update-baseline":
         return update_baseline()
+    if args and args[0] == "--replay-k1":
+        import kani_unit
+        return kani_unit.replay_k1(args[1], args[2], args[3:], repo_root())
     if args and args[0] == "--replay":
         import replay
         return replay.main(args[1:])
